@@ -589,11 +589,27 @@ func Generate(t *tape.Tape, p Profile) *App {
 		// one symbol, two roles: a node that loads a sink symbol (size 0) loads it under a size limit
 		// instead, so the same name is a paginated sink in one node and an ordinary value in another
 		t.Begin("sizeflip")
-		for _, n := range a.Nodes {
+		type site struct{ n, k int }
+		sites := map[string][]site{}
+		var syms []string
+		for ni, n := range a.Nodes {
 			for k := range n.Code {
-				if n.Code[k].Op == LOAD && n.Code[k].N == 0 && t.Chance(1, 3) {
-					n.Code[k].N = 400
+				if n.Code[k].Op == LOAD && n.Code[k].N == 0 {
+					if len(sites[n.Code[k].A]) == 0 {
+						syms = append(syms, n.Code[k].A)
+					}
+					sites[n.Code[k].A] = append(sites[n.Code[k].A], site{ni, k})
 				}
+			}
+		}
+		for _, sym := range syms {
+			l := sites[sym]
+			if len(l) >= 2 {
+				// both roles: exactly one of its load sites gets the limit
+				x := l[t.Int(len(l))]
+				a.Nodes[x.n].Code[x.k].N = 400
+			} else if t.Chance(1, 4) {
+				a.Nodes[l[0].n].Code[l[0].k].N = 400
 			}
 		}
 		t.End()
